@@ -14,7 +14,7 @@
    proved (fold-free queries: `..._partial`); for queries with folds the implementation is covered by
    the run-time oracle of ./check C13 (every row of the real engine against the real declared types). *)
 From Coq Require Import Permutation.
-From TF Require Import Values Exec Sem Sim SimComp SimOut SimTop Run SimGen SimFull WfCheck WfIR WfIRProofs TypedFull.
+From TF Require Import Values Exec Sem Sim SimComp SimOut SimTop Run SimGen SimFull WfCheck SimFinal WfIR WfIRProofs TypedFull.
 Local Open Scope string_scope.
 
 (* ---- exactly the declared names ---- *)
@@ -79,6 +79,18 @@ Theorem C13_engine_rows_typed :
       forall n t v, In (n, (t, v)) (ix_outputs ix) -> ty_valid t (row_get row n) = Ok true.
 Proof. exact engine_rows_typed. Qed.
 Print Assumptions C13_engine_rows_typed.
+
+(* ... and with the unrestricted refinement theorem (refine_hyps: no condition on fold-count limits) *)
+Theorem C13_engine_rows_typed_all :
+  forall re g args S q ix q' rows,
+    ty_indep g -> conforms S g -> wf_ir q = true -> refine_hyps args q' = true -> outputs_typed S (rq_comp q) ->
+    index_query q = Ok (inr ix) -> lower_query q = Ok q' ->
+    interpret re g args q' = Ok rows ->
+    forall row, In row rows ->
+      (forall n, lookup_str n row <> None <-> In n (map fst (ix_outputs ix))) /\
+      forall n t v, In (n, (t, v)) (ix_outputs ix) -> ty_valid t (row_get row n) = Ok true.
+Proof. exact engine_rows_typed_all. Qed.
+Print Assumptions C13_engine_rows_typed_all.
 
 (* ---- the three clauses about the declared types ---- *)
 (* every declared output is justified by one of the three rules of `declares` *)
